@@ -34,7 +34,7 @@ def check_function(ctx, fn, rule='R-PARALLEL'):
             continue
         body = L.child('body')
         for key, v in look.items():
-            if v.id > L.id:
+            if v.pos > L.pos:
                 continue
             used = any(x.k == 'UnaryOperator' and x.op == '*' and lvalue_key(x.child('sub')) == key for x in body.walk()) or \
                 any(x.k == 'MemberExpr' and x.arrow and lvalue_key(x.child('base')) == key for x in body.walk())
@@ -117,7 +117,7 @@ def check_cursors(ctx, fn, rule='R-PARALLEL'):
         scope = v.parent.parent if v.parent is not None else None
         if scope is None:
             continue
-        ders = [x for x in scope.walk() if x.id > v.id and ((x.k == 'UnaryOperator' and x.op == '*' and lvalue_key(x.child('sub')) == key) or (x.k == 'MemberExpr' and x.arrow and lvalue_key(x.child('base')) == key))]
+        ders = [x for x in scope.walk() if x.pos > v.pos and ((x.k == 'UnaryOperator' and x.op == '*' and lvalue_key(x.child('sub')) == key) or (x.k == 'MemberExpr' and x.arrow and lvalue_key(x.child('base')) == key))]
         tops = []
         for x in ders:
             loops = [a for a in x.ancestors() if a.k in ('ForStmt', 'WhileStmt', 'DoStmt') and any(y is a for y in scope.walk()) and a is not scope]
